@@ -114,6 +114,7 @@ RULES = {
     'R12': 'a private helper method without a contract and without `return` is inlined at its call sites: f(a, b) -> { let r12_0 = (a); let r12_1 = (b); let p = r12_0; let q = r12_1; BODY } (modular verification cannot see through an uncontracted call)',
     'M4': '#[derive(Clone)] is expanded to the field-wise clone it generates (view fields: clone_view, Copy scalars: copy, Vec/VecDeque of scalars: trusted deque_clone/vec_clone); a hand-written Clone impl is left unverified and reported',
     'R13': 'guard-style early returns `if c { return e; }` of an inlined helper become `if c { e } else { rest }`',
+    'L1': 'local variables renamed (same let-bindings in the same order, fresh names): the contract text of the function follows the rename',
     'F1': 'a private struct field was renamed (same field types in the same order): the contract text follows the rename',
     'R6': 'Vec::last().copied() -> same call on a shim helper vec_last(&v) (contract: last element or None)',
 }
@@ -364,6 +365,24 @@ def inject_fn(em, module, vc, header, body, is_trait_impl, struct_name):
         raw = pm.group(1)
         ym = re.search(r'let Some\((?:mut )?(\w+)\) = self\s*\.view\s*\.last\(\)', body)
         y = ym.group(1) if ym else raw
+    # L1: local variables renamed since the contract was written (same `let` bindings in the same order, a fresh name replacing a
+    # vanished one): the contract text of this function follows the rename
+    lrename = {}
+    cur_locals = re.findall(r'\blet\s+(?:mut\s+)?([a-z_]\w*)\s*(?=[:=])', body)
+    lkey = '%s::%s/locals' % (module, name)
+    if RECORD_LOOPS is not None:
+        RECORD_LOOPS[lkey] = cur_locals
+    elif lkey in LOOP_HEADERS and LOOP_HEADERS[lkey] != cur_locals and len(LOOP_HEADERS[lkey]) == len(cur_locals):
+        oldl = LOOP_HEADERS[lkey]
+        lrename = {o: n for o, n in zip(oldl, cur_locals) if o != n and o not in cur_locals and n not in oldl}
+        if lrename: em.extra_rules = getattr(em, 'extra_rules', set()) | set(['L1'])
+    def ren(t):
+        if t is None or not lrename: return t
+        for o, n in lrename.items():
+            t = re.sub(r'(?<![\.\w])%s\b(?!\s*\()' % re.escape(o), n, t)
+        return t
+    def vget(k):
+        return ren(vc.get(k))
     em_add = em.add
     def add_sub(text, info=None):
         if raw:
@@ -374,7 +393,7 @@ def inject_fn(em, module, vc, header, body, is_trait_impl, struct_name):
         em_add(text, info)
     em.add = add_sub
     em.add('    ' + hdr)
-    ctext = vc.get('fn ' + name)
+    ctext = vget('fn ' + name)
     if ctext:
         kinds = ('ensures',) if is_trait_impl else ('requires', 'ensures', 'recommends')
         emit_clauses(em, parse_clauses(ctext), module, name, kinds + ('decreases',))
@@ -389,7 +408,7 @@ def inject_fn(em, module, vc, header, body, is_trait_impl, struct_name):
     for k, (hs, b, c) in enumerate(loops):
         lv = re.match(r'for\s+(\w+)\s+in', body[hs:b])
         lvn = lv.group(1) if lv else 'i'
-        lt = vc.get('loop %s %d' % (name, k))
+        lt = vget('loop %s %d' % (name, k))
         if lt:
             # anchor fingerprint: the loop a contract was written for is recognised by its header (loop variable abstracted);
             # if the header changed the invariants may no longer talk about this loop -> lost anchor, never an alarm
@@ -402,15 +421,15 @@ def inject_fn(em, module, vc, header, body, is_trait_impl, struct_name):
                 raise ExtractError('lost anchor: loop %s now reads `%s` (contract written for `%s`)' % (key, fp, LOOP_HEADERS[key]))
             um = re.search(r'\.\.=?\s*(.+?)\s*$', body[hs:b].strip(), re.S)
             inserts.append((b, ('LOOP', k, lt.replace('@I@', lvn).replace('@END@', '(%s)' % um.group(1) if um else '@END@'))))
-        bl = vc.get('beforeloop %s %d' % (name, k))
+        bl = vget('beforeloop %s %d' % (name, k))
         if bl:
             inserts.append((body.rfind('\n', 0, hs) + 1, ('TEXT', -1, bl)))
-        le = vc.get('loopend %s %d' % (name, k))
+        le = vget('loopend %s %d' % (name, k))
         if le:
             inserts.append((c, ('LOOPEND', k, le.replace('@I@', lvn))))
     tail = vc.tail if (name == 'update' and is_trait_impl) else []
     for k, m in enumerate(re.finditer(r'\breturn\b', body)):
-        rt = vc.get('return %s %d' % (name, k))
+        rt = vget('return %s %d' % (name, k))
         if rt:
             inserts.append((m.start(), ('TEXT', k, rt)))
         if tail and k >= 1:
@@ -418,15 +437,15 @@ def inject_fn(em, module, vc, header, body, is_trait_impl, struct_name):
     for key in list(vc.sec.keys()):
         # statement-level anchor (used sparingly): `== before FN :: needle` - proof text goes before the line containing needle
         if key.startswith('before %s ::' % name):
-            needle = key.split('::', 1)[1].strip()
+            needle = ren(key.split('::', 1)[1].strip())
             if body.count(needle) != 1:
                 raise ExtractError('lost anchor: `%s` occurs %d times in %s::%s' % (needle, body.count(needle), module, name))
             at = body.rfind('\n', 0, body.index(needle)) + 1
-            inserts.append((at, ('TEXT', -1, vc.get(key))))
-    bt = vc.get('begin ' + name)
+            inserts.append((at, ('TEXT', -1, vget(key))))
+    bt = vget('begin ' + name)
     if bt:
         inserts.append((0, ('TEXT', -1, bt)))
-    et = vc.get('end ' + name)
+    et = vget('end ' + name)
     has_ret = bool(rm)
     tail_expr = has_ret and body.rstrip() and body.rstrip()[-1] != ';'
     if et:
@@ -834,7 +853,7 @@ def build(out_path, only=None, exclude=None):
     em.add(tail.strip('\n'))
     text = '\n'.join(em.lines) + '\n'
     open(out_path, 'w').write(text)
-    report['rules_applied'] = sorted(report['rules_applied'])
+    report['rules_applied'] = sorted(set(report['rules_applied']) | getattr(em, 'extra_rules', set()))
     report['literals'] = lits
     report['line_map'] = {str(k): v for k, v in em.map.items()}
     report['fnspans'] = em.fnspans
